@@ -150,6 +150,11 @@ func (ds *NativeSM) Loaded() {
 // Close closes the underlying user state machine and set the destroyed flag.
 func (ds *NativeSM) Close() error {
 	verifhook.Point(verifhook.NativeSMClose, ds.config.ShardID, ds.config.ReplicaID)
+	// Lookup() holds the read lock when it checks the destroyed flag and
+	// invokes the user state machine, the write lock is thus required here so
+	// that the user state machine is not closed in the middle of a Lookup.
+	ds.mu.Lock()
+	defer ds.mu.Unlock()
 	if err := ds.sm.Close(); err != nil {
 		return err
 	}
